@@ -10,6 +10,7 @@ import (
 	"os"
 	"os/exec"
 	"path/filepath"
+	"regexp"
 	"strconv"
 	"strings"
 	"time"
@@ -138,6 +139,55 @@ func sxInt(s *sx) (int64, bool) {
 	return 0, false
 }
 
+// the defining axiom of the clamped slice length, turned into a definition for candidate searches
+var slnDefs = regexp.MustCompile(`\(declare-fun (\S+)_n \(\S+\) Int\)\n\(assert \(forall \(\(s \S+\)\) \(! [^\n]*\n`)
+
+// dropQuantified removes the top-level assertions that contain a quantifier.
+func dropQuantified(q string) string {
+	var b strings.Builder
+	depth, start := 0, 0
+	inStr, inBar := false, false
+	for i := 0; i < len(q); i++ {
+		c := q[i]
+		switch {
+		case inStr:
+			if c == '"' {
+				inStr = false
+			}
+		case inBar:
+			if c == '|' {
+				inBar = false
+			}
+		case c == '"':
+			inStr = true
+		case c == '|':
+			inBar = true
+		case c == ';' && depth == 0:
+			for i < len(q) && q[i] != '\n' {
+				i++
+			}
+		case c == '(':
+			if depth == 0 {
+				b.WriteString(q[start:i])
+				start = i
+			}
+			depth++
+		case c == ')':
+			depth--
+			if depth == 0 {
+				form := q[start : i+1]
+				start = i + 1
+				if strings.HasPrefix(form, "(assert") && (strings.Contains(form, "(forall ") || strings.Contains(form, "(exists ")) {
+					continue
+				}
+				b.WriteString(form)
+			}
+		}
+	}
+	b.WriteString(q[start:])
+	return b.String()
+}
+
 // ---- interactive solver session ---------------------------------------------------------------
 
 type z3session struct {
@@ -160,6 +210,9 @@ func startZ3(query string) (*z3session, string, error) {
 	line, err := s.out.ReadString('\n')
 	return s, strings.TrimSpace(line), err
 }
+
+// tell sends a command that produces no answer.
+func (s *z3session) tell(cmd string) { io.WriteString(s.in, cmd+"\n") }
 
 // ask sends a command and reads one balanced s-expression answer.
 func (s *z3session) ask(cmd string) string {
@@ -367,6 +420,32 @@ func (d *decoder) goValue(path string, t types.Type, depth int) string {
 	return "*new(" + d.typeStr(t) + ")"
 }
 
+// sizeTerms collects bounds on the lengths of the slices and strings inside an input value.
+func (d *decoder) sizeTerms(path string, t types.Type, depth int, out *[]string) {
+	if depth > 3 || len(*out) > 60 {
+		return
+	}
+	tc := d.e.tc
+	s := tc.sortOf(t)
+	switch {
+	case s == SStr:
+		*out = append(*out, fmt.Sprintf("(<= (slen %s) 12)", path))
+	case s.Kind == KRecord:
+		if st, ok := t.Underlying().(*types.Struct); ok {
+			for i := 0; i < st.NumFields() && i < len(s.Fields); i++ {
+				d.sizeTerms("("+s.Fields[i].Sel+" "+path+")", st.Field(i).Type(), depth+1, out)
+			}
+		}
+	case s.Kind == KSlice:
+		if sl, ok := t.Underlying().(*types.Slice); ok {
+			*out = append(*out, fmt.Sprintf("(<= (%s_n %s) 4)", s.Name, path))
+			for i := 0; i < 3; i++ {
+				d.sizeTerms(fmt.Sprintf("(select (%s_arr %s) %d)", s.Name, path, i), sl.Elem(), depth+1, out)
+			}
+		}
+	}
+}
+
 // ---- replay --------------------------------------------------------------------------------------
 
 type ReplayResult struct {
@@ -377,6 +456,7 @@ type ReplayResult struct {
 	Detail     string
 	Cmd        string
 	TestFile   string
+	Candidate  bool // the input came from a search with the quantified axioms dropped (the solver gave no model)
 }
 
 // replay decodes the model of a failed obligation and runs the real function.
@@ -387,6 +467,13 @@ func (e *Engine) replay(fn *ssa.Function, ob *Obligation, dir string, overlay ma
 		return res
 	}
 	q := strings.Replace(ob.Query, "(check-sat)\n", "", 1)
+	if ob.Status != "failed" {
+		// the solvers gave no model (quantified axioms make the query undecidable for them):
+		// search for a candidate input with the quantified assertions dropped.  The candidate
+		// may be spurious; it counts only if the real code confirms it below.
+		q = dropQuantified(slnDefs.ReplaceAllString(q, "(define-fun ${1}_n ((s $1)) Int (ite (>= (${1}_len s) 0) (${1}_len s) 0))\n"))
+		res.Candidate = true
+	}
 	sess, first, err := startZ3(q + "(check-sat)\n")
 	if err != nil || first != "sat" {
 		if sess != nil {
@@ -397,6 +484,31 @@ func (e *Engine) replay(fn *ssa.Function, ob *Obligation, dir string, overlay ma
 	}
 	defer sess.close()
 	d := &decoder{e: e, sess: sess, pkg: fn.Pkg.Pkg, imports: map[string]string{"fmt": "fmt", "testing": "testing"}}
+	// prefer a small counterexample: bound the lengths of the input's slices and strings if that is still satisfiable
+	{
+		var sizes []string
+		m0 := e.mods[fn]
+		k0 := 0
+		for j, p := range fn.Params {
+			if k0 >= len(ob.Inputs) {
+				break
+			}
+			t := p.Type()
+			if pt, ok := t.(*types.Pointer); ok && ((m0 != nil && m0.params[j]) || e.isCellParam(p)) {
+				t = pt.Elem()
+			}
+			d.sizeTerms(ob.Inputs[k0], t, 0, &sizes)
+			k0++
+		}
+		if len(sizes) > 0 {
+			sess.tell("(push)")
+			sess.tell("(assert (and " + strings.Join(sizes, " ") + " true))")
+			if strings.TrimSpace(sess.ask("(check-sat)")) != "sat" {
+				sess.tell("(pop)")
+				sess.ask("(check-sat)")
+			}
+		}
+	}
 	c := e.contractOf[fn]
 	m := e.mods[fn]
 	var decls, args, olds []string
